@@ -196,8 +196,11 @@ impl Mac {
         }?;
         let (mut tx_config, tx_channel) =
             self.region.create_tx_config(rng, self.configuration.data_rate, &Frame::Data);
+        // A power commanded by the network lowers the limit; it never lifts it above what the
+        // radio can output.
+        let max_power = self.board_eirp.max_power;
         tx_config.adjust_power(
-            self.configuration.tx_power.unwrap_or(self.board_eirp.max_power),
+            self.configuration.tx_power.map_or(max_power, |commanded| commanded.min(max_power)),
             self.board_eirp.antenna_gain,
         );
         Ok((tx_config, self.rx_windows(&tx_channel), fcnt))
